@@ -139,7 +139,7 @@ def mut(e):
 def run(ctx):
     ctx.mc("MC_KeyCodec", core.cfg_of("MC_KeyCodec.cfg"),
            label="toy-scale constructor accept-iff-valid, WIF payload round trip; first-character theorem at real scale")
-    events = core.build_events(ctx, gen_inputs(ctx))
+    events = core.build_events(ctx, gen_inputs(ctx) if ctx.quick else core.rounds(ctx, gen_inputs, 10))
     events += core.suite_events(ctx, ["tests/test_keys.py", "tests/test_bip32.py", "tests/test_bip84.py", "tests/test_bip85.py"],
                                 ("Wif", "FromWif", "SecParse"), len(events), limit=100 if ctx.quick else 1500)
     for e in events[:1] + events[9:10] + events[-1:]:
